@@ -1,4 +1,5 @@
 import DimodProofs.Store
+import DimodProofs.Heap
 
 /-! # C19 — copies and non-mutating variants are independent of the original
 
@@ -176,5 +177,314 @@ example : ((Op.sliceNone true ⟨none, some 2, none⟩).run st0 o0).map (fun p =
   decide +kernel
 
 example : ((Op.sliceSorted [3, 1]).run st0 o0).map (fun p => readAll p.1 p.2.record) = some [3, 1] := by decide +kernel
+
+end C19
+
+/-! ## BQM / QM / CQM as records of references into a heap (`DimodModel/Heap.lean`)
+
+A cy object owns a C++ model cell and refers to a `Variables` cell; a Python model refers to a cy object; a cy CQM refers to a C++ CQM
+cell (objective cell + vector of constraint cells) and two `Variables` cells.  Every call below is the sequence of allocations and
+writes of its source (`Call.run`, `cyAddConstraintFromModel`, `setObjective`, …). -/
+
+namespace C19
+open MHeap
+
+/-- **every copy-producing call of a BQM / QM** (`copy`, `deepcopy`, construction from a model, `from_bqm`, pickling, every
+    `inplace=False` method, model ∘ number, `m + other`, `m - other`, `m * other`, promotion of two BQMs of different vartype to a QM),
+    as coded: no cell that existed before the call is written; the result is a cy object whose three cells (itself, its C++ model, its
+    `Variables`) were all allocated by the call; it holds the specified result; receiver and second operand read as before -/
+theorem heap_calls_fresh (h : Heap) (d o : Nat) (hd : Born 0 h d) (ho : Born 0 h o) (c : Call) (hc : c.producesCopy = true) :
+    Same h.next h (c.run h d o).1 ∧ Born h.next (c.run h d o).1 (c.run h d o).2 ∧
+    obs (c.run h d o).1 (c.run h d o).2 = c.expected h d o ∧
+    obs (c.run h d o).1 d = obs h d ∧ obs (c.run h d o).1 o = obs h o := by
+  have hp := call_spec hd ho c hc
+  exact ⟨hp.2.1, hp.2.2.1, hp.2.2.2, (hp.old hd).2.1, (hp.old ho).2.1⟩
+
+/-- **whole histories**: after such a call, let ANY interleaving of in-place edits (`es`; `false` = on the receiver, `true` = on the
+    result) run.  The receiver then reads what its own edits make of its contents before the call, the result what its own edits
+    make of the call's specified result: no later in-place edit of either object is ever visible through the other. -/
+theorem heap_copies_independent (h : Heap) (d o : Nat) (hd : Born 0 h d) (ho : Born 0 h o) (c : Call) (hc : c.producesCopy = true)
+    (es : List (Bool × Edit)) :
+    obs (runEdits (c.run h d o).1 d (c.run h d o).2 es) d = applyEdits (obs h d) ((es.filter (fun p => !p.1)).map (·.2)) ∧
+    obs (runEdits (c.run h d o).1 d (c.run h d o).2 es) (c.run h d o).2 =
+      applyEdits (c.expected h d o) ((es.filter (fun p => p.1)).map (·.2)) := by
+  have hp := call_spec hd ho c hc
+  have hi := history_independent (sep_of_produces hp hd) es
+  rw [hi.1, hi.2, (hp.old hd).2.1, hp.2.2.2]
+  exact ⟨rfl, rfl⟩
+
+/-- … the same with the second operand of a binary operator in the receiver's place -/
+theorem heap_operand_independent (h : Heap) (d o : Nat) (hd : Born 0 h d) (ho : Born 0 h o) (c : Call) (hc : c.producesCopy = true)
+    (es : List (Bool × Edit)) :
+    obs (runEdits (c.run h d o).1 o (c.run h d o).2 es) o = applyEdits (obs h o) ((es.filter (fun p => !p.1)).map (·.2)) ∧
+    obs (runEdits (c.run h d o).1 o (c.run h d o).2 es) (c.run h d o).2 =
+      applyEdits (c.expected h d o) ((es.filter (fun p => p.1)).map (·.2)) := by
+  have hp := call_spec hd ho c hc
+  have hi := history_independent (sep_of_produces hp ho) es
+  rw [hi.1, hi.2, (hp.old ho).2.1, hp.2.2.2]
+  exact ⟨rfl, rfl⟩
+
+/-- the documented alias: `.spin` / `.binary` is a Python object around the receiver's OWN cy object — nothing is allocated; what is
+    read through the view after any history of edits of the parent is the conversion of what the parent reads, and a write through
+    the view is read back through it (and, converted, through the parent) -/
+theorem heap_views_track (h : Heap) (d o : Nat) (hd : Born 0 h d) (tr inv : List Rat → List Rat) (hinv : ∀ x, tr (inv x) = x)
+    (es : List Edit) (c : List Rat) :
+    Call.view.run h d o = (h, d) ∧
+    viewRead (es.foldl (fun acc e => e.run acc d) h) d tr =
+      (tr (obs (es.foldl (fun acc e => e.run acc d) h) d).1, (obs (es.foldl (fun acc e => e.run acc d) h) d).2) ∧
+    (viewRead (viewWrite h d inv c) d tr).1 = c ∧ (obs (viewWrite h d inv c) d).1 = inv c := by
+  obtain ⟨_, _, m3, _⟩ := mutate_spec hd (fun _ => inv c) id
+  refine ⟨rfl, rfl, ?_, ?_⟩
+  · show tr (obs (mutate h d (fun _ => inv c) id) d).1 = c
+    rw [m3]; exact hinv c
+  · show (obs (mutate h d (fun _ => inv c) id) d).1 = inv c
+    rw [m3]
+
+/-- `m += other` is the documented in-place form: it writes the receiver's own cells (and is therefore not in the list above) -/
+theorem heap_iadd_in_place (h : Heap) (d o : Nat) (m : Merge) : ((Call.iadd m).run h d o).2 = d := rfl
+
+/-- **adding a model to a CQM** (`cyCQM.add_constraint_from_model` as coded).  The constraint is a NEW cell holding the re-indexed
+    contents of the model and is appended to the CQM's constraint vector; the existing cells written are the CQM's `Variables`, its
+    constraint vector and its constraint labels — and, only with `copy=False`, the two cells of the source model, which is left empty
+    (the documented move).  With `copy=True` the source model reads exactly as before. -/
+theorem heap_add_to_cqm (h : Heap) (d m q v l o : Nat) (cs : List Nat) (hm : Born 0 h m) (hd : CShape h d q v l o cs)
+    (hdis : ∀ x ∈ [m, cppOf h m, varsOf h m], x ≠ d ∧ x ≠ q ∧ x ≠ v ∧ x ≠ l) (copy : Bool)
+    (remap : List Rat → List Rat) (m' : Merge) (lab : List Nat → List Nat) :
+    (cyAddConstraintFromModel h d m copy remap m' lab).2 = h.next ∧
+    coeffsAt (cyAddConstraintFromModel h d m copy remap m' lab).1 h.next = remap (obs h m).1 ∧
+    constraintsOf (cyAddConstraintFromModel h d m copy remap m' lab).1 (cppOf (cyAddConstraintFromModel h d m copy remap m' lab).1 d) = cs ++ [h.next] ∧
+    obs (cyAddConstraintFromModel h d m copy remap m' lab).1 m = (if copy then obs h m else ([], [])) ∧
+    (∀ a, a < h.next → a ≠ v → a ≠ q → a ≠ l → (copy = false → a ≠ cppOf h m ∧ a ≠ varsOf h m) →
+      (cyAddConstraintFromModel h d m copy remap m' lab).1.cell a = h.cell a) :=
+  cyAdd_spec hm hd hdis copy remap m' lab
+
+/-- … and afterwards ANY history of in-place edits of the source model leaves every other cell of the heap alone: the new constraint, the
+    CQM's objective, its other constraints, its `Variables` and labels all read the same -/
+theorem heap_source_edits_invisible (h : Heap) (m : Nat) (hm : Born 0 h m) (es : List Edit) (a : Nat)
+    (h1 : a ≠ cppOf h m) (h2 : a ≠ varsOf h m) : (es.foldl (fun acc e => e.run acc m) h).cell a = h.cell a :=
+  edits_write_own_cells hm es a h1 h2
+
+/-- … and, the other way round, ANY history of in-place edits of a CQM (objective, constraints, variables, labels, adding and removing
+    constraints) leaves a model none of whose cells belongs to the CQM — the source of a `copy=True` constraint, of `set_objective` —
+    reading exactly the same -/
+theorem heap_cqm_edits_invisible_in_model (h : Heap) (d m : Nat) (hg : CGood h d) (hm : Born 0 h m)
+    (hdis : m ∉ cfp h d ∧ cppOf h m ∉ cfp h d ∧ varsOf h m ∉ cfp h d) (es : List CEdit) :
+    obs (es.foldl (fun acc e => e.run acc d) h) m = obs h m :=
+  (cqm_edits_leave_model hg hm hdis es).1
+
+/-- the option plumbing, as coded: `add_constraint` / `add_constraint_from_comparison` hand `copy` on by keyword;
+    `add_discrete_from_comparison(comp, label, copy, check_overlaps)` hands `copy` on as `copy` and `check_overlaps` as
+    `check_overlaps`, and `check_overlaps` never reaches the Cython call: what happens to the caller's model depends on `copy` alone
+    (seeded change C19-6 swaps the two) -/
+theorem heap_add_discrete_plumbing (h : Heap) (d lhs : Nat) (copy co co' : Bool) (remap mark : List Rat → List Rat) (m' : Merge) (lab : List Nat → List Nat) :
+    addConstraint h d lhs copy remap m' lab = cyAddConstraintFromModel h d lhs copy remap m' lab ∧
+    addDiscreteFromComparison h d lhs copy co remap mark m' lab = addDiscreteFromModel h d lhs copy co' remap mark m' lab ∧
+    (addDiscreteFromModel h d lhs copy co remap mark m' lab).2 = (cyAddConstraintFromModel h d lhs copy remap m' lab).2 ∧
+    (addDiscreteFromModel h d lhs copy co remap mark m' lab).1 =
+      store (cyAddConstraintFromModel h d lhs copy remap m' lab).1 (cyAddConstraintFromModel h d lhs copy remap m' lab).2
+        (.coeffs (mark (coeffsAt (cyAddConstraintFromModel h d lhs copy remap m' lab).1 (cyAddConstraintFromModel h d lhs copy remap m' lab).2))) :=
+  ⟨rfl, rfl, rfl, rfl⟩
+
+/-- `add_discrete_from_iterable` builds its own BQM and moves it (`copy=False`): the moved object is one the call allocated -/
+theorem heap_add_discrete_iterable_moves_own (h : Heap) (d : Nat) (co : Bool) (fill : Post) (remap mark : List Rat → List Rat) (m' : Merge) (lab : List Nat → List Nat) :
+    (addDiscreteFromIterable h d co fill remap mark m' lab).2 =
+      (cyAddConstraintFromModel (mutate (cyNew h).1 (cyNew h).2 fill.f fill.g) d (cyNew h).2 false remap m' lab).2 ∧
+    Born h.next (mutate (cyNew h).1 (cyNew h).2 fill.f fill.g) (cyNew h).2 :=
+  ⟨rfl, (produces_then_mutate (produces_new h) fill.f fill.g).2.2.1⟩
+
+/-- **`set_objective(model)`** as coded: the model's contents are copied INTO the CQM's own objective cell (whose address does not
+    change: `cqm.objective` views stay valid); the only other cell written is the CQM's `Variables`; the source model reads as before
+    and shares no cell with the CQM -/
+theorem heap_set_objective (h : Heap) (d m q v l o : Nat) (cs : List Nat) (hm : Born 0 h m) (hd : CShape h d q v l o cs)
+    (hdis : ∀ x ∈ [m, cppOf h m, varsOf h m], x ≠ d ∧ x ≠ q ∧ x ≠ v ∧ x ≠ l ∧ x ≠ o) (ho : o ≠ d ∧ o ≠ q ∧ o ≠ v)
+    (remap : List Rat → List Rat) (m' : Merge) :
+    objectiveOf (setObjective h d m false remap m') (cppOf (setObjective h d m false remap m') d) = o ∧
+    coeffsAt (setObjective h d m false remap m') o = remap (obs h m).1 ∧
+    obs (setObjective h d m false remap m') m = obs h m ∧
+    (∀ a, a ≠ o → a ≠ v → (setObjective h d m false remap m').cell a = h.cell a) :=
+  setObjective_spec hm hd hdis ho remap m'
+
+/-- … also for an object-dtype BQM: `BinaryQuadraticModel(objective, dtype=self.dtype)` makes a temporary out of new cells, which is what is
+    copied into the objective cell; the caller's model is never written -/
+theorem heap_set_objective_object_dtype (h : Heap) (d m q v l o : Nat) (cs : List Nat) (hm : Born 0 h m) (hd : CShape h d q v l o cs)
+    (ho : o < h.next ∧ o ≠ d ∧ o ≠ q ∧ o ≠ v) (hdis : ∀ x ∈ [m, cppOf h m, varsOf h m], x ≠ o ∧ x ≠ v)
+    (remap : List Rat → List Rat) (m' : Merge) :
+    coeffsAt (setObjective h d m true remap m') o = remap (m'.u [] (obs h m).1) ∧
+    obs (setObjective h d m true remap m') m = obs h m ∧
+    (∀ a, a < h.next → a ≠ o → a ≠ v → (setObjective h d m true remap m').cell a = h.cell a) :=
+  setObjective_object_spec hm hd ho hdis remap m'
+
+/-- **`add_constraint(model, copy=True)` end to end** on any well-formed CQM and any model sharing no cell with it: the CQM stays well-formed
+    and separate from the model; afterwards ANY history of in-place edits of the source model leaves the CQM (objective, every constraint
+    incl. the new one, variables, labels) reading the same, and ANY history of in-place edits of the CQM leaves the source model reading
+    what it read before the call -/
+theorem heap_add_copy_then_histories (h : Heap) (d m : Nat) (hg : CGood h d) (hm : Born 0 h m)
+    (hdis : m ∉ cfp h d ∧ cppOf h m ∉ cfp h d ∧ varsOf h m ∉ cfp h d)
+    (remap : List Rat → List Rat) (m' : Merge) (lab : List Nat → List Nat) (es : List Edit) (ces : List CEdit) :
+    CGood (cyAddConstraintFromModel h d m true remap m' lab).1 d ∧
+    cobs (es.foldl (fun acc e => e.run acc m) (cyAddConstraintFromModel h d m true remap m' lab).1) d =
+      cobs (cyAddConstraintFromModel h d m true remap m' lab).1 d ∧
+    obs (ces.foldl (fun acc e => e.run acc d) (cyAddConstraintFromModel h d m true remap m' lab).1) m = obs h m :=
+  ⟨(cyAdd_copy_separate hg hm hdis remap m' lab).1, cyAdd_copy_then_histories hg hm hdis remap m' lab es ces⟩
+
+/-- **`set_objective(model)` end to end** on any well-formed CQM and any (array-backed) model sharing no cell with it (`MSep`): the call
+    is two in-place edits of the CQM (variables added, objective cell overwritten with the model's contents); the model reads as before, the
+    pair stays separate; afterwards ANY history of in-place edits of the model leaves the CQM reading the same and ANY history of in-place
+    edits of the CQM leaves the model reading the same -/
+theorem heap_set_objective_then_histories (h : Heap) (d m : Nat) (s : MSep h d m) (remap : List Rat → List Rat) (m' : Merge)
+    (es : List Edit) (ces : List CEdit) :
+    MSep (setObjective h d m false remap m') d m ∧ obs (setObjective h d m false remap m') m = obs h m ∧
+    cobs (es.foldl (fun acc e => e.run acc m) (setObjective h d m false remap m')) d = cobs (setObjective h d m false remap m') d ∧
+    obs (ces.foldl (fun acc e => e.run acc d) (setObjective h d m false remap m')) m = obs h m :=
+  setObjective_then_histories s remap m' es ces
+
+/-- **`add_discrete(model | comparison, copy=True, check_overlaps=…)` end to end**: whatever `check_overlaps` is, the caller's model reads as
+    before the call (this is what seeded change C19-6 breaks), the pair stays separate, and any later history of in-place edits on either side
+    is invisible on the other -/
+theorem heap_add_discrete_then_histories (h : Heap) (d m : Nat) (s : MSep h d m) (co : Bool) (remap mark : List Rat → List Rat) (m' : Merge)
+    (lab : List Nat → List Nat) (es : List Edit) (ces : List CEdit) :
+    MSep (addDiscreteFromComparison h d m true co remap mark m' lab).1 d m ∧
+    obs (addDiscreteFromComparison h d m true co remap mark m' lab).1 m = obs h m ∧
+    cobs (es.foldl (fun acc e => e.run acc m) (addDiscreteFromComparison h d m true co remap mark m' lab).1) d =
+      cobs (addDiscreteFromComparison h d m true co remap mark m' lab).1 d ∧
+    obs (ces.foldl (fun acc e => e.run acc d) (addDiscreteFromComparison h d m true co remap mark m' lab).1) m = obs h m :=
+  addDiscrete_then_histories s co remap mark m' lab es ces
+
+/-- expression views hold no contents of their own: `cqm.objective` evaluates `&parent.cppcqm.objective` at every access, a
+    `ConstraintView` dereferences its weak pointer — which is valid exactly while the constraint is in the parent's vector — so
+    whatever the parent's cells hold after any edit is what the view reads, and a write through the view is a write of the parent's cell -/
+theorem heap_expression_views_track (h : Heap) (parent ptr : Nat) (c : List Rat) :
+    objectiveViewRead h parent = (cobs h parent).1 ∧
+    (ptr ∈ constraintsOf h (cppOf h parent) → constraintViewRead h parent ptr = some (coeffsAt h ptr)) ∧
+    (ptr ∉ constraintsOf h (cppOf h parent) → constraintViewRead h parent ptr = none) ∧
+    coeffsAt (constraintViewWrite h ptr c) ptr = c ∧
+    coeffsAt (objectiveViewWrite h parent c) (objectiveOf h (cppOf h parent)) = c := by
+  refine ⟨rfl, fun hh => by simp [constraintViewRead, hh], fun hh => by simp [constraintViewRead, hh], ?_, ?_⟩
+  · simp [constraintViewWrite, coeffsAt, store_cell]
+  · simp [objectiveViewWrite, coeffsAt, store_cell]
+
+/-- **CQM copies** — `copy.deepcopy(cqm)` (`cyCQM.__deepcopy__` as coded: new object, `new.cppcqm = self.cppcqm` through the C++ copy
+    constructor which `make_shared`s every constraint, both `Variables` deep-copied) and `fix_variables(…, inplace=False)`
+    (`make_cqm(self.cppcqm.fix_variables(…))`, then relabelling of the new object): no existing cell is written; EVERY cell of the result —
+    cy object, C++ CQM, objective, each constraint, `variables`, `constraint_labels` — was allocated by the call; the result holds the
+    (transformed) objective, constraints in order, variables and labels; the receiver reads as before -/
+theorem heap_cqm_copies_fresh (h : Heap) (d q v l o : Nat) (cs : List Nat) (hd : CWf h d q v l o cs) (c : CCall)
+    (hc : ∀ es, c ≠ .inplaceFalse es) :
+    Same h.next h (c.run h d).1 ∧ (∀ a ∈ cfp (c.run h d).1 (c.run h d).2, h.next ≤ a) ∧ cobs (c.run h d).1 d = cobs h d ∧
+    cobs (c.run h d).1 (c.run h d).2 = (match c with
+      | .deepcopy => cobs h d
+      | .fixVariablesCopy ko kc gv => (ko (cobs h d).1, (cobs h d).2.1.map kc, gv (cobs h d).2.2.1, (cobs h d).2.2.2)
+      | .inplaceFalse _ => cobs h d) := by
+  have eobs : cobs h d = (coeffsAt h o, cs.map (coeffsAt h), labelsAt h v, labelsAt h l) := by
+    obtain ⟨d1, d2, _⟩ := hd
+    simp [cobs, cppOf, varsOf, clabelsOf, objectiveOf, constraintsOf, d1, d2]
+  cases c with
+  | deepcopy =>
+    obtain ⟨s1, s2, s3, s4⟩ := cqmRebuild_spec hd id id id id
+    refine ⟨s1, s2, s4, ?_⟩
+    show cobs (cqmRebuild h d id id id id).1 (cqmRebuild h d id id id id).2 = cobs h d
+    rw [s3, eobs]; rfl
+  | fixVariablesCopy ko kc gv =>
+    obtain ⟨s1, s2, s3, s4⟩ := cqmRebuild_spec hd ko kc gv id
+    refine ⟨s1, s2, s4, ?_⟩
+    show cobs (cqmRebuild h d ko kc gv id).1 (cqmRebuild h d ko kc gv id).2 = _
+    rw [s3, eobs]; simp [List.map_map, Function.comp_def]
+  | inplaceFalse es => exact absurd rfl (hc es)
+
+/-- hence a later write to ANY cell of the copy — objective, a constraint, a `Variables` — cannot be a write to a cell of the receiver
+    (all of which are below `h.next`), and vice versa: the two objects have no cell in common -/
+theorem heap_cqm_copies_disjoint (h : Heap) (d q v l o : Nat) (cs : List Nat) (hd : CWf h d q v l o cs) (c : CCall)
+    (hc : ∀ es, c ≠ .inplaceFalse es) (a : Nat) (ha : a ∈ cfp (c.run h d).1 (c.run h d).2) :
+    a ∉ cfp (c.run h d).1 d := by
+  obtain ⟨s1, s2, _, _⟩ := heap_cqm_copies_fresh h d q v l o cs hd c hc
+  have hge := s2 a ha
+  obtain ⟨d1, d2, d3, d4, d5, d6, d7, d8⟩ := hd
+  have c0 : (c.run h d).1.cell d = h.cell d := s1 d d3
+  have cq : (c.run h d).1.cell q = h.cell q := s1 q d4
+  intro hmem
+  simp only [cfp, cppOf, varsOf, clabelsOf, objectiveOf, constraintsOf, c0, cq, d1, d2, List.mem_cons] at hmem
+  rcases hmem with rfl | rfl | rfl | rfl | rfl | hmem
+  · omega
+  · omega
+  · omega
+  · omega
+  · omega
+  · have := d8 a hmem; omega
+
+/-- **frame of one in-place edit of a CQM** (through `cqm.objective`, a constraint view, `add_variable` / `relabel_variables`,
+    `relabel_constraints`, `add_constraint_from_iterable`, `remove_constraint`): it writes only cells of the CQM's own footprint or cells
+    it allocates itself; the footprint grows by allocated cells only; the object stays well-formed -/
+theorem heap_cqm_edit_frame (h : Heap) (d : Nat) (hg : CGood h d) (e : CEdit) :
+    h.next ≤ (e.run h d).next ∧ CGood (e.run h d) d ∧
+    (∀ a, a < h.next → a ∉ cfp h d → (e.run h d).cell a = h.cell a) ∧
+    (∀ a ∈ cfp (e.run h d) d, a ∈ cfp h d ∨ a = h.next) :=
+  cedit_step hg e
+
+/-- **every copy-producing call of a CQM** — `copy.deepcopy`, `fix_variables(inplace=False)`, and `relabel_variables` /
+    `spin_to_binary` with `inplace=False` (as coded: `copy.deepcopy(self)`, then the in-place method — any list of edits — on the copy):
+    receiver and result are well-formed objects with NO cell in common, and the receiver reads as before the call -/
+theorem heap_cqm_calls_separate (h : Heap) (d : Nat) (hg : CGood h d) (c : CCall) :
+    CSep (c.run h d).1 d (c.run h d).2 ∧ cobs (c.run h d).1 d = cobs h d := by
+  obtain ⟨q, v, l, o, cs, hw, nd⟩ := hg
+  have rb : ∀ ko kc gv gl, CSep (cqmRebuild h d ko kc gv gl).1 d (cqmRebuild h d ko kc gv gl).2 ∧
+      cobs (cqmRebuild h d ko kc gv gl).1 d = cobs h d := fun ko kc gv gl =>
+    ⟨csep_of_rebuild ⟨q, v, l, o, cs, hw, nd⟩ ko kc gv gl, (cqmRebuild_spec hw ko kc gv gl).2.2.2⟩
+  cases c with
+  | deepcopy => exact rb id id id id
+  | fixVariablesCopy ko kc gv => exact rb ko kc gv id
+  | inplaceFalse es =>
+    obtain ⟨s, o1⟩ := rb id id id id
+    obtain ⟨s', o2⟩ := csep_one_sided s.symm es
+    exact ⟨s'.symm, o2.trans o1⟩
+
+/-- **whole histories of two separate CQMs** (a copy and its receiver in particular): along ANY interleaving of in-place edits the two
+    objects never come to share a cell, and any run of edits of one leaves the other reading exactly the same — no later in-place edit of
+    either is ever visible through the other -/
+theorem heap_cqm_histories_independent (h : Heap) (a b : Nat) (s : CSep h a b) (es : List (Bool × CEdit)) (one : List CEdit) :
+    CSep (runCEdits h a b es) a b ∧
+    cobs (one.foldl (fun acc e => e.run acc a) h) b = cobs h b ∧
+    cobs (one.foldl (fun acc e => e.run acc b) h) a = cobs h a :=
+  ⟨csep_history s es, (csep_one_sided s one).2, (csep_one_sided s.symm one).2⟩
+
+/-! ### non-vacuity: a concrete heap with a BQM at cells 0–2 and a second one at 3–5 -/
+
+def h0 : Heap := { cell := fun a => match a with
+    | 0 => .coeffs [1, 2] | 1 => .labels [7, 8] | 2 => .cy 0 1
+    | 3 => .coeffs [5] | 4 => .labels [7] | 5 => .cy 3 4 | _ => .free, next := 6 }
+
+example : Born 0 h0 2 := ⟨0, 1, rfl, by decide, by decide, by decide, by decide, by decide, by decide, by decide, by decide, by decide⟩
+example : (Call.copy.run h0 2 5).2 = 8 := rfl
+example : obs (Call.copy.run h0 2 5).1 8 = ([1, 2], [7, 8]) := by decide +kernel
+example : obs ((Call.addModel ⟨fun a b => a ++ b, fun a b => a ++ b⟩).run h0 2 5).1 8 = ([1, 2, 5], [7, 8, 7]) := by decide +kernel
+example : obs (runEdits (Call.copy.run h0 2 5).1 2 8 [(false, .coeffs (fun _ => [9])), (true, .labels (fun _ => []))]) 2 = ([9], [7, 8]) := by
+  decide +kernel
+example : obs (runEdits (Call.copy.run h0 2 5).1 2 8 [(false, .coeffs (fun _ => [9])), (true, .labels (fun _ => []))]) 8 = ([1, 2], []) := by
+  decide +kernel
+
+/-- a CQM: objective 3, C++ CQM 4 with one constraint (cell 8), constraint labels 5, variables 6, cy CQM 7 -/
+def hq0cell : Nat → Cell
+  | 3 => .coeffs [4] | 4 => .cqm 3 [8] | 5 => .labels [100] | 6 => .labels [7] | 7 => .cycqm 4 6 5 | 8 => .coeffs [6] | _ => .free
+def hq0 : Heap := { cell := hq0cell, next := 9 }
+
+example : CGood hq0 7 :=
+  ⟨4, 6, 5, 3, [8], ⟨rfl, rfl, by decide, by decide, by decide, by decide, by decide, by decide⟩, by decide⟩
+example : (cqmDeepcopy hq0 7).2 = 13 := rfl
+example : cobs (cqmDeepcopy hq0 7).1 13 = ([4], [[6]], [7], [100]) := by decide +kernel
+example : cobs ((CEdit.constraint 0 (fun _ => [9])).run (cqmDeepcopy hq0 7).1 13) 7 = ([4], [[6]], [7], [100]) := by decide +kernel
+example : cobs ((CEdit.constraint 0 (fun _ => [9])).run (cqmDeepcopy hq0 7).1 13) 13 = ([4], [[9]], [7], [100]) := by decide +kernel
+
+/-- the CQM of `hq0` next to a BQM at cells 0–2 -/
+def hq1cell : Nat → Cell
+  | 0 => .coeffs [1, 2] | 1 => .labels [7, 8] | 2 => .cy 0 1 | a => hq0cell a
+def hq1 : Heap := { cell := hq1cell, next := 9 }
+
+example : MSep hq1 7 2 :=
+  ⟨⟨4, 6, 5, 3, [8], ⟨rfl, rfl, by decide, by decide, by decide, by decide, by decide, by decide⟩, by decide⟩,
+   ⟨0, 1, rfl, by decide, by decide, by decide, by decide, by decide, by decide, by decide, by decide, by decide⟩,
+   by decide, by decide, by decide⟩
+example : obs (addDiscreteFromComparison hq1 7 2 true false id id ⟨fun a b => a ++ b, fun a b => a ++ b⟩ id).1 2 = ([1, 2], [7, 8]) := by
+  decide +kernel
+example : obs (addDiscreteFromComparison hq1 7 2 false true id id ⟨fun a b => a ++ b, fun a b => a ++ b⟩ id).1 2 = ([], []) := by
+  decide +kernel
 
 end C19
